@@ -16,12 +16,130 @@ use tokio_rustls::rustls::pki_types::{CertificateDer, PrivateKeyDer, ServerName,
 
 pub const CERTS: &str = "/verif/certs";
 
+/// names starting with '@' are certificates minted at run time (see `mint_validity`)
 pub fn cert_path(name: &str) -> PathBuf {
-    PathBuf::from(format!("{CERTS}/{name}_cert.pem"))
+    match name.strip_prefix('@') {
+        Some(n) => minted_dir().join(format!("{n}_cert.pem")),
+        None => PathBuf::from(format!("{CERTS}/{name}_cert.pem")),
+    }
 }
 
 pub fn key_path(name: &str) -> PathBuf {
-    PathBuf::from(format!("{CERTS}/{name}_key.pem"))
+    match name.strip_prefix('@') {
+        Some(n) => minted_dir().join(format!("{n}_key.pem")),
+        None => PathBuf::from(format!("{CERTS}/{name}_key.pem")),
+    }
+}
+
+fn minted_dir() -> PathBuf {
+    let d = PathBuf::from(format!("/verif/.target/minted/{}", std::process::id()));
+    let _ = std::fs::create_dir_all(&d);
+    d
+}
+
+/// (tag, header length, content length) of the DER element starting at `at`
+fn der_tlv(b: &[u8], at: usize) -> (u8, usize, usize) {
+    let tag = b[at];
+    let l0 = b[at + 1] as usize;
+    if l0 < 0x80 {
+        (tag, 2, l0)
+    } else {
+        let n = l0 & 0x7F;
+        let mut len = 0usize;
+        for k in 0..n {
+            len = (len << 8) | b[at + 2 + k] as usize;
+        }
+        (tag, 2 + n, len)
+    }
+}
+
+fn utc_time(unix: i64) -> String {
+    // civil-from-days (Howard Hinnant)
+    let days = unix.div_euclid(86400);
+    let secs = unix.rem_euclid(86400);
+    let z = days + 719468;
+    let era = z.div_euclid(146097);
+    let doe = z.rem_euclid(146097);
+    let yoe = (doe - doe / 1460 + doe / 36524 - doe / 146096) / 365;
+    let y = yoe + era * 400;
+    let doy = doe - (365 * yoe + yoe / 4 - yoe / 100);
+    let mp = (5 * doy + 2) / 153;
+    let d = doy - (153 * mp + 2) / 5 + 1;
+    let m = if mp < 10 { mp + 3 } else { mp - 9 };
+    let y = if m <= 2 { y + 1 } else { y };
+    format!("{:02}{:02}{:02}{:02}{:02}{:02}Z", y % 100, m, d, secs / 3600, (secs % 3600) / 60, secs % 60)
+}
+
+/// Copy of the pre-minted certificate `base` whose validity period is [now + nb, now + na]
+/// seconds, signed again with the RSA key `signer` (its issuer for CA-issued certificates, its own
+/// key for self-signed ones). Only the two UTCTime values and the signature change, so no length
+/// in the DER structure moves. Returns the name under which `cert_path` / `key_path` find it.
+pub fn mint_validity(base: &str, signer: &str, nb: i64, na: i64, tag: &str) -> Result<String, String> {
+    let chain = load_chain(base);
+    let mut der = chain.first().ok_or("no certificate")?.as_ref().to_vec();
+    // Certificate ::= SEQUENCE { tbs, sigAlg, sig }
+    let (_, h0, _) = der_tlv(&der, 0);
+    let tbs_at = h0;
+    let (_, tbs_h, tbs_len) = der_tlv(&der, tbs_at);
+    // tbs: [0] version, serial, signature, issuer, validity
+    let mut at = tbs_at + tbs_h;
+    for _ in 0..4 {
+        let (_, h, l) = der_tlv(&der, at);
+        at += h + l;
+    }
+    let (vtag, vh, _) = der_tlv(&der, at);
+    if vtag != 0x30 {
+        return Err("validity not found".into());
+    }
+    let now = std::time::SystemTime::now().duration_since(std::time::UNIX_EPOCH).map_err(|e| e.to_string())?.as_secs() as i64;
+    let mut t_at = at + vh;
+    for off in [nb, na] {
+        let (ttag, th, tl) = der_tlv(&der, t_at);
+        if ttag != 0x17 || tl != 13 {
+            return Err("validity is not a UTCTime".into());
+        }
+        der[t_at + th..t_at + th + 13].copy_from_slice(utc_time(now + off).as_bytes());
+        t_at += th + tl;
+    }
+    // sign the TBS again
+    let key = load_key(signer);
+    let pkcs8 = match &key {
+        PrivateKeyDer::Pkcs8(k) => k.secret_pkcs8_der().to_vec(),
+        _ => return Err("signer key is not PKCS#8".into()),
+    };
+    let pair = ring::signature::RsaKeyPair::from_pkcs8(&pkcs8).map_err(|e| format!("key: {e}"))?;
+    let tbs = der[tbs_at..tbs_at + tbs_h + tbs_len].to_vec();
+    let mut sig = vec![0u8; pair.public().modulus_len()];
+    pair.sign(&ring::signature::RSA_PKCS1_SHA256, &ring::rand::SystemRandom::new(), &tbs, &mut sig).map_err(|e| format!("sign: {e}"))?;
+    // signature BIT STRING is the last element: 03 82 01 01 00 <256 bytes>
+    let n = der.len();
+    if sig.len() > n || der[n - sig.len() - 1] != 0 {
+        return Err("unexpected signature layout".into());
+    }
+    der[n - sig.len()..].copy_from_slice(&sig);
+    // write PEM
+    let name = format!("{base}-{tag}");
+    let b64 = {
+        const T: &[u8; 64] = b"ABCDEFGHIJKLMNOPQRSTUVWXYZabcdefghijklmnopqrstuvwxyz0123456789+/";
+        let mut o = String::new();
+        for c in der.chunks(3) {
+            let v = [c[0], *c.get(1).unwrap_or(&0), *c.get(2).unwrap_or(&0)];
+            o.push(T[(v[0] >> 2) as usize] as char);
+            o.push(T[(((v[0] & 3) << 4) | (v[1] >> 4)) as usize] as char);
+            o.push(if c.len() > 1 { T[(((v[1] & 15) << 2) | (v[2] >> 6)) as usize] as char } else { '=' });
+            o.push(if c.len() > 2 { T[(v[2] & 63) as usize] as char } else { '=' });
+        }
+        o
+    };
+    let mut pem = String::from("-----BEGIN CERTIFICATE-----\n");
+    for line in b64.as_bytes().chunks(64) {
+        pem.push_str(std::str::from_utf8(line).unwrap());
+        pem.push('\n');
+    }
+    pem.push_str("-----END CERTIFICATE-----\n");
+    std::fs::write(minted_dir().join(format!("{name}_cert.pem")), pem).map_err(|e| e.to_string())?;
+    std::fs::copy(key_path(base), minted_dir().join(format!("{name}_key.pem"))).map_err(|e| e.to_string())?;
+    Ok(format!("@{name}"))
 }
 
 /// the real-time multi-threaded runtime used by the net engine
